@@ -40,6 +40,20 @@ func jitter(r *rand.Rand) {
 	}
 }
 
+func callDoR(F *RFuncs, variant string, fs []func() (int, error)) ([]int, error) {
+	v := make([]int, len(fs))
+	var err error
+	switch len(fs) {
+	case 2:
+		v[0], v[1], err = F.Do2[variant](fs[0], fs[1])
+	case 3:
+		v[0], v[1], v[2], err = F.Do3[variant](fs[0], fs[1], fs[2])
+	case 4:
+		v[0], v[1], v[2], v[3], err = F.Do4(fs[0], fs[1], fs[2], fs[3])
+	}
+	return v, err
+}
+
 // RunReal executes the configuration on the real runtime and checks the observable clauses.
 // The second result lists violated clauses (a timeout counts as a deadlock).
 func RunReal(F *RFuncs, c Config, r *rand.Rand) (*Outcome, []string, []string) {
@@ -51,6 +65,7 @@ func RunReal(F *RFuncs, c Config, r *rand.Rand) (*Outcome, []string, []string) {
 	o.Got, o.SawClose = make([][]int, nOut), make([]bool, nOut)
 	base := runtime.NumGoroutine()
 	var wg sync.WaitGroup
+	var extraMu sync.Mutex
 	mkIns := func() []chan int { // fmapch only (int streams)
 		ins := make([]chan int, len(c.Items))
 		for i := range ins {
@@ -139,22 +154,30 @@ func RunReal(F *RFuncs, c Config, r *rand.Rand) (*Outcome, []string, []string) {
 						<-rv[p]
 					}
 				}
+				if i == 0 && c.Overlap == "nested" {
+					bad := secondCall(c.N, func(g []func() (int, error)) ([]int, error) { return callDoR(F, c.Variant, g) })
+					extraMu.Lock()
+					o.Extra = append(o.Extra, bad...)
+					extraMu.Unlock()
+				}
 				return DoVal(i), DoErrOf(c.Errs[i])
 			}
+		}
+		if c.Overlap == "concurrent" {
+			wg.Add(1)
+			go func() {
+				defer wg.Done()
+				bad := secondCall(c.N, func(g []func() (int, error)) ([]int, error) { return callDoR(F, c.Variant, g) })
+				extraMu.Lock()
+				o.Extra = append(o.Extra, bad...)
+				extraMu.Unlock()
+			}()
 		}
 		wg.Add(1)
 		go func() {
 			defer wg.Done()
 			var err error
-			o.DoVals = make([]int, c.N)
-			switch c.N {
-			case 2:
-				o.DoVals[0], o.DoVals[1], err = F.Do2[c.Variant](fs[0], fs[1])
-			case 3:
-				o.DoVals[0], o.DoVals[1], o.DoVals[2], err = F.Do3[c.Variant](fs[0], fs[1], fs[2])
-			case 4:
-				o.DoVals[0], o.DoVals[1], o.DoVals[2], o.DoVals[3], err = F.Do4(fs[0], fs[1], fs[2], fs[3])
-			}
+			o.DoVals, err = callDoR(F, c.Variant, fs)
 			o.DoRet = true
 			o.DoErr = DoErrCode(err)
 		}()
@@ -283,6 +306,14 @@ func MainR(F *RFuncs) {
 					for _, c := range DoConfigs(n) {
 						runCfg(c, reps)
 					}
+				}
+				for _, c := range OverlapConfigs() {
+					runCfg(c, 2*reps)
+				}
+			}
+			if sys == "joinsel" {
+				for _, c := range NilArgConfigs(3) {
+					runCfg(c, reps)
 				}
 			}
 			if sys != "do" {
